@@ -988,6 +988,19 @@ def run(case):
         if t["reader"]:
             reader_check(ti, t)
 
+    for t in case["txns"]:
+        # write N, get_node(N), write N again, get_node(N) again inside one transaction
+        stage = {}
+        for op in t["ops"]:
+            n = op.get("name")
+            if op["op"] in ("add", "replace", "delete", "delete_exact"):
+                if stage.get(n, 0) in (0, 2):
+                    stage[n] = stage.get(n, 0) + 1
+            elif op["op"] == "get_node":
+                if stage.get(n, 0) in (1, 3):
+                    stage[n] += 1
+        if any(v >= 4 for v in stage.values()):
+            classes.add("get_node-reread-after-rewrite")
     if flags["abs_in_rel"]:
         classes.add("absolute-owner-in-relativized-zone")
     if flags["abort_with_writes"]:
@@ -1099,6 +1112,15 @@ def _txn(draw, types, max_ops, prev):
         ops.append(op)
         if op["op"] in ("add", "replace", "delete", "delete_exact") and op["name"] != N_OUT:
             prev.append((op["name"], op["type"], list(op.get("recs", []))))
+    if draw(st.integers(0, 2)) == 0:
+        # read the node back after (most) writes: a second write to a name is then followed by a
+        # second get_node() of that name inside the same transaction
+        ops2 = []
+        for op in ops:
+            ops2.append(op)
+            if op["op"] in ("add", "replace", "delete", "delete_exact") and draw(st.integers(0, 3)) != 0:
+                ops2.append({"op": "get_node", "spell": draw(st.sampled_from([0, 1, 2, 3])), "upper": False, "name": op["name"]})
+        ops = ops2
     return {
         "replacement": draw(st.sampled_from([False] * 7 + [True])),
         "ops": ops,
@@ -1164,6 +1186,7 @@ def parts(tier):
         "ended-sweep": 1000,
         "veto-fired": 400,
         "crash-points>=10": 300,
+        "get_node-reread-after-rewrite": 150,
         "replacement": 80,
         "__nontrivial__": 400,
     }
